@@ -17,6 +17,18 @@ class NoVerdict(Exception):
 
 def scratch():
     base = os.environ.get("VERIF_SCRATCH_BASE") or tempfile.gettempdir()
+    # a check that was killed (timeout, OOM killer) cannot remove its scratch directory - thorough traces are gigabytes -:
+    # directories of this prefix that nobody has touched for six hours are removed by the next run
+    try:
+        now = time.time()
+        for name in os.listdir(base):
+            if name.startswith("vf-"):
+                p = os.path.join(base, name)
+                if os.path.isdir(p) and now - os.path.getmtime(p) > 6 * 3600 and now - max(
+                        [os.path.getmtime(os.path.join(p, x)) for x in os.listdir(p)] or [0]) > 6 * 3600:
+                    shutil.rmtree(p, ignore_errors=True)
+    except OSError:
+        pass
     d = tempfile.mkdtemp(prefix="vf-", dir=base)
     return d
 
